@@ -1,4 +1,5 @@
 import GdVerif.Run.GenValve
+import GdVerif.Run.Faults
 import GdVerif.Spec.ValveFaults
 /-
   Driver entry `valveplan`: the SPEC's faulty script for one fault vector of the C10 check.
@@ -14,9 +15,6 @@ import GdVerif.Spec.ValveFaults
 -/
 namespace Gd.Run
 open Gd Gd.Valve Gd.Valve.Spec
-
-/-- the datagram the check uses as a malformed reply -/
-def malformedDatagram : Bytes := [0xFF, 0xFF]
 
 /-- read a vector as (failed attempts, ending, left-over letters) for retry count `r`, faults after `j` challenge
 rounds -/
@@ -39,13 +37,6 @@ def leftover (x : Exchange) (arrival : List Bytes) (j : Nat) (cs : List Char) : 
         (Ending.malformed j malformedDatagram).faults x)
       else (Ending.valid.deliveries x arrival, Ending.valid.faults x)
     (acc.1 ++ d, acc.2 ++ f)) ([], [])
-
-def showDeliveries (ds : List Delivery) : String :=
-  if ds.isEmpty then "." else String.intercalate "," (ds.map fun
-    | .data d => if d.isEmpty then "-" else hexOf d
-    | .silence => "~")
-
-def showFaults (fs : List Bool) : String := String.join (fs.map fun b => if b then "1" else "0")
 
 /-- `valveplan <seed> <k> <retries> <unit 0-5> <vector>` → the case line of the plan, with tags -/
 def entryValvePlan (args : List String) : String :=
@@ -85,7 +76,7 @@ def entryValvePlan (args : List String) : String :=
         && wfPlanReached r cfg st plan
       s!"valve {port} {showEngineArg cfg.engine} {showGatherArg cfg.gather} {r} {showDeliveries script} f={showFaults faults}"
         ++ " ## WANT " ++ showRes showResponse (faultyExpected cfg st plan)
-        ++ " ## SENT " ++ String.intercalate "," ((faultySends cfg st plan).map fun (d, f) => hexOf d ++ (if f then "!" else ""))
+        ++ " ## SENT " ++ showSent (faultySends cfg st plan)
         ++ " ## ATT " ++ toString (p.attempts)
         ++ " ## THM " ++ (if thm then "1" else "0")
     | _, _, _, _ => "bad-case"
